@@ -83,6 +83,69 @@ def scenario(args):
         shutil.rmtree(sim.base, ignore_errors=True)
 
 
+RENAME_TARGETS = ["release notes.txt", "a b c.md", "dir with space/x y.rs", "plain2.txt", "caf\u00e9 1.txt", "sub/new name.py",
+                  "q\"uote d.txt", "tab\there.txt"]
+
+
+def scenario_rename(args):
+    """a tracked file is renamed (staged with git mv, or moved by hand and added at commit time), an agent then appends
+    lines to it and a person rewrites one of them: the note of the commit must list exactly the agent's surviving lines
+    under the NEW name"""
+    base, seed, idx, opts = args
+    r = C.Rng(seed).fork(f"c01-mv-{idx}")
+    sim = Sim(base, f"mv{idx}")
+    try:
+        n = r.range(3, 8)
+        old = r.pick(["notes.txt", "src/old name.rs", "x.md"])
+        new = RENAME_TARGETS[idx % len(RENAME_TARGETS)]
+        base_lines = [f"h{idx}-{i}" for i in range(n)]
+        sim.init({old: "".join(l + "\n" for l in base_lines), "other.txt": "o\n"})
+        staged = r.chance(2, 3)
+        os.makedirs(os.path.dirname(os.path.join(sim.repo, new)) or sim.repo, exist_ok=True)
+        if staged:
+            rc = sim.git("mv", old, new)[0]
+        else:
+            os.rename(os.path.join(sim.repo, old), os.path.join(sim.repo, new))
+            rc = 0
+        if rc != 0:
+            return {"idx": idx, "failures": [], "skipped": True, "staged": staged, "new": new}
+        k = r.range(2, 3)
+        ai = [f"AI{idx}-{j}" for j in range(k)]
+        sess = r.pick(["s1", "s2"])
+        sim.checkpoint_human([new])
+        sim.write(new, "".join(l + "\n" for l in base_lines + ai))
+        sim.checkpoint_ai(sess, [new], tool=TOOL)
+        cur = base_lines + ai
+        human_rewrite = r.chance(1, 2)
+        if human_rewrite:
+            cur[-1] = f"H{idx}-rewritten"
+            sim.write(new, "".join(l + "\n" for l in cur))
+        sim.realgit("add", "-A")
+        rc = sim.git("commit", "-q", "-m", "rename + agent work")[0]
+        want = {i + 1 for i, t in enumerate(cur) if t.startswith("AI")}
+        note = sim.note(sim.head())
+        got = set()
+        h = session_hash(TOOL, sess)
+        if note and note.get("ok"):
+            got = set(note["files"].get(new, {}).get(h, []))
+            extra = {p: v for p, v in note["files"].items() if p != new and any(v.values())}
+        else:
+            extra = {}
+        bl = sim.blame(new) or {}
+        fails = []
+        if rc != 0:
+            fails.append({"what": f"commit failed ({rc})"})
+        if got != want or extra:
+            fails.append({"what": "note differs from ground truth after a rename", "expected": sorted(want), "got": sorted(got),
+                          "other_files": {p: str(v) for p, v in extra.items()}, "new_name": new, "staged_rename": staged})
+        if {i for i, hh in bl.items() if hh == h} != want:
+            fails.append({"what": "blame differs from ground truth after a rename", "expected": sorted(want),
+                          "got": sorted(bl), "new_name": new, "staged_rename": staged})
+        return {"idx": idx, "failures": fails, "staged": staged, "new": new, "log": sim.log if fails else None}
+    finally:
+        shutil.rmtree(sim.base, ignore_errors=True)
+
+
 def k1_witness(base):
     """known finding C01-K1: an added line whose text begins with '++ ' is rendered '+++ ...' by git diff
     and taken for a file header; a later hunk of the same file loses its attribution."""
@@ -170,6 +233,15 @@ def run(ctx):
                 violations.append((f["what"] + " after " + str(r_["steps"])[:300],
                                    {"kind": "history", "steps": r_["steps"], "failure": f, "files": r_["files"],
                                     "commands": r_["log"]}))
+    n_mv = 16 if ctx.tier == "quick" else 240
+    mv = C.parallel_map(scenario_rename, [(ctx.scratch, ctx.seed, i, {}) for i in range(n_mv)])
+    for r_ in mv:
+        if "error" in r_:
+            violations.append(("engine error: " + r_["error"][-300:], r_))
+            continue
+        for f in r_["failures"]:
+            violations.append((f["what"] + f" (new name {r_['new']!r}, staged={r_['staged']})",
+                               {"kind": "rename", "failure": f, "commands": r_.get("log")}))
     obligations.append(("tie:correspondence Model/WorkLog.v vs from_just_working_log on real working logs",
                         not tie_bad and ctx.model_ok,
                         (tie_bad[0]["model"][:200] + " vs " + str(tie_bad[0]["impl"])[:200]) if tie_bad else
